@@ -1,7 +1,7 @@
 """C01 — longest match / first rule / pattern language: verified validator on generated rule sets."""
 import os, sys, json, random, time
 from multiprocessing import Pool
-from . import common, rules, flexrun, tv, patgen
+from . import common, rules, flexrun, tv, patgen, rtprop
 
 THEOREMS = [
     'FlexVerif.Re.pderiv_correct', 'FlexVerif.Re.nullable_iff', 'FlexVerif.Re.rep_matches',
@@ -30,6 +30,8 @@ def _work(job):
     r = tv.validate_one(flex, workdir, 'c01_%d' % idx, rs, topt, seed ^ 0x5a5a, budget=budget,
                         driver_timeout=dtimeout)
     r['features'] = tv.features(rs)
+    if r.get('crlf'):
+        r['features']['crlf_rule_file'] = 1
     if r.get('x_groups'):
         r['features']['x_flag_groups_printed'] = r['x_groups']
     r['kind'] = kind
@@ -66,6 +68,12 @@ def run(ctx):
                 r.get('word'), r['verdict']),
                 {'lex': r['lex'], 'opts': r['opts'], 'word_hex': r.get('word'), 'verdict': r['verdict'],
                  'seed': r['seed'], 'kind': r['kind']})
+        elif r['status'] == 'flexfail':
+            lines = [l for l in (r.get('flex_stderr') or '').strip().split('\n') if l.strip() and 'warning' not in l]
+            msg = lines[-1] if lines else ''
+            if not any(k in msg for k in rtprop.EXPECTED_REFUSALS):
+                ctx.violation('flex refused a rule set the specification accepts: %s' % msg[-200:],
+                              {'lex': r['lex'], 'opts': r['opts'], 'flex_stderr': r.get('flex_stderr'), 'seed': r['seed'], 'kind': r['kind']})
         elif r['status'] in ('error', 'notclosed'):
             ctx.violation('validator could not decide: %s' % (r.get('detail') or r.get('verdict')),
                           {'lex': r['lex'], 'opts': r['opts']}, no_input=True)
